@@ -1,4 +1,4 @@
-CONSTANT N = 140
+CONSTANT N = 80
 INIT Init
 NEXT Next
 INVARIANT Check
